@@ -8,10 +8,11 @@ EXTENDS PlencCodec
 EmptyRepMap(cfg, T0, v) == LET T == Resolve(T0) IN T.k = "map" /\ T.proto /\ v.m = <<>>
 RECURSIVE Norm(_, _, _, _), NormElems(_, _, _, _, _), NormJ(_)
 Norm(cfg, T0, v, omitPos) == LET T == Resolve(T0) IN
-  CASE T.k \in {"bool", "int", "uint", "string"} -> v
+  CASE T.k \in {"bool", "int", "uint", "string", "marked"} -> v
     [] T.k \in {"f32", "f64"} -> IF omitPos /\ IsZeroFloat(v) THEN Zero(T) ELSE v
     [] T.k = "bytes" -> IF v.b = <<>> THEN Zero(T) ELSE [nil |-> FALSE, b |-> v.b]
-    [] T.k \in {"time", "bqtime"} -> [sec |-> v.sec, nsec |-> v.nsec]
+    [] T.k = "time" -> [sec |-> v.sec, nsec |-> v.nsec]
+    [] T.k = "bqtime" -> [sec |-> v.sec, nsec |-> (v.nsec \div 1000) * 1000]       \* the BigQuery timestamp is in microseconds
     [] T.k = "null" -> IF ~v.valid THEN Zero(T) ELSE [valid |-> TRUE, v |-> Norm(cfg, NullBase(T.of), v.v, FALSE)]
     [] T.k = "ptr" -> IF v.nil \/ (IsRepeated(cfg, T.e) /\ Omit(cfg, T.e, v.v)) \/ EmptyRepMap(cfg, T.e, v.v)
                       THEN Zero(T)          \* an empty repeated field has no representation, nor has a pointer to one
@@ -41,7 +42,7 @@ NormJ(x) == CASE x.k = "arr" -> [k |-> "arr", nil |-> FALSE, e |-> [i \in 1..Len
 RECURSIVE Eq(_, _, _), EqMap(_, _, _), EqJ(_, _)
 Eq(T0, a, b) == LET T == Resolve(T0) IN
   CASE T.k \in {"bool", "f32", "f64", "string"} -> a = b
-    [] T.k \in {"int", "uint"} -> a.neg = b.neg /\ a.mag = b.mag
+    [] T.k \in {"int", "uint", "marked"} -> a.neg = b.neg /\ a.mag = b.mag
     [] T.k = "bytes" -> a.nil = b.nil /\ a.b = b.b
     [] T.k \in {"time", "bqtime"} -> a.sec.neg = b.sec.neg /\ a.sec.mag = b.sec.mag /\ a.nsec = b.nsec
     [] T.k = "null" -> a.valid = b.valid /\ Eq(NullBase(T.of), a.v, b.v)
@@ -73,7 +74,9 @@ Diff(T0, a, b) == LET T == Resolve(T0) IN
   IF Eq(T, a, b) THEN ""
   ELSE CASE T.k = "ptr" -> IF a.nil # b.nil THEN "*nil" ELSE "*" \o Diff(T.e, a.v, b.v)
          [] T.k = "slice" -> IF a.nil # b.nil THEN "[nil]" ELSE IF Len(a.e) # Len(b.e) THEN "[len]" ELSE DiffSeq(T.e, a.e, b.e, 1)
-         [] T.k = "map" -> IF a.nil # b.nil THEN "{nil}" ELSE IF Len(a.m) # Len(b.m) THEN "{len}" ELSE "{entries}"
+         [] T.k = "map" -> IF a.nil # b.nil THEN "{nil}" ELSE IF Len(a.m) # Len(b.m) THEN "{len}"
+                           ELSE LET same == {<<i, j>> \in (1..Len(a.m)) \X (1..Len(b.m)) : Eq(T.key, a.m[i][1], b.m[j][1]) /\ ~Eq(T.val, a.m[i][2], b.m[j][2])} IN
+                                IF same = {} THEN "{keys}" ELSE LET p == CHOOSE x \in same : TRUE IN "{}" \o Diff(T.val, a.m[p[1]][2], b.m[p[2]][2])
          [] T.k = "struct" -> DiffFields(T, a, b, 1)
          [] T.k = "null" -> IF a.valid # b.valid THEN "?valid" ELSE "?value"
          [] OTHER -> T.k
